@@ -86,10 +86,12 @@ Recover(nsI, lenOf(_)) ==
                    edits == [j \in 1..n |-> M(man).units[j][2]]
                    withLog == {j \in 1..n : edits[j].log >= 0}
                    lognum == IF withLog = {} THEN 0 ELSE edits[CHOOSE j \in withLog : \A k \in withLog : k <= j].log
-                   added == UNION {SeqToSet(edits[j].add) : j \in 1..n}
-                   \* a file deleted by a later edit than the one adding it is gone; numbers are never re-added
-                   deleted == UNION {SeqToSet(edits[j].dele) : j \in 1..n}
-                   tables == added \ deleted
+                   \* edits apply in order; within one edit deletions come first (a trivial move deletes a file from
+                   \* one level and adds the same number to the next in a single edit)
+                   tables == LET RECURSIVE After(_)
+                                 After(j) == IF j = 0 THEN {}
+                                             ELSE (After(j - 1) \ SeqToSet(edits[j].dele)) \cup SeqToSet(edits[j].add)
+                             IN After(n)
                    tblIno(t) == {i \in files : M(i).kind = "table" /\ M(i).num = t /\ lenOf(i) = M(i).size}
                    tblOk == n >= 1 /\ \A t \in tables : tblIno(t) # {}
                    fromTbl == UNION {UNION {SeqToSet(M(i).batches) : i \in tblIno(t)} : t \in tables}
